@@ -98,6 +98,7 @@ struct GenOpts {
     int maxDepth = 4; int maxChildren = 4; bool allowDoctype = true; bool allowExternal = true; bool allowNS = true;
     bool forceUtf8 = false; int padTo = 0; int padBytes = 0;   // padBytes: same, in bytes of the chosen encoding            // pad (comment/text) so the document reaches about this many chars
     bool allowXml11 = true; bool trailingMisc = true; bool bigText = false;
+    bool dupAttr = false;      // now and then write an attribute twice (well-formedness error inside a start tag)
     bool idAttrs = false; std::vector<std::u32string> presetNames;    // shared element names across the documents of one history
     int alignMode = 0;            // 0 off, 1 = align a construct to a 16384-unit character-buffer refill point, 2 = to a 49152-byte raw refill point
     int alignMultiple = 1; int alignDelta = 0; std::string alignKind;   // which multiple, how many units before it, construct kind ("" = any)
@@ -283,7 +284,9 @@ private:
         for (auto& d : decls) { ws(em, true); em.puts("xmlns:"); em.putu(d.first); ws(em, false); em.put(U'='); ws(em, false); quoted(em, std::string("urn:ns") + (char)('0' + d.second)); }
         if (useNS && rng.chance(1, 5)) { ws(em, true); em.puts("xmlns"); em.put(U'='); quoted(em, rng.chance(1, 4) ? "" : "urn:dflt"); }
         int na = rng.small(3);
-        for (int i = 0; i < na; i++) { std::u32string an = genName(); if (an == U"xmlns") continue; if (useNS && !prefixes.empty() && rng.chance(1, 4)) an = prefixes.back() + U":" + an; if (std::find(used.begin(), used.end(), an) != used.end()) continue; used.push_back(an); ws(em, true); em.putu(an); ws(em, false); em.put(U'='); ws(em, false); attrValue(em); }
+        for (int i = 0; i < na; i++) { std::u32string an = genName(); if (an == U"xmlns") continue; if (useNS && !prefixes.empty() && rng.chance(1, 4)) an = prefixes.back() + U":" + an; if (std::find(used.begin(), used.end(), an) != used.end()) continue; used.push_back(an); ws(em, true); em.putu(an); ws(em, false); em.put(U'='); ws(em, false); attrValue(em);
+            if (opt.dupAttr && rng.chance(1, 6)) { ws(em, true); em.putu(an); em.put(U'='); attrValue(em); }      // the same attribute twice: a fatal error in the middle of a start tag (C15 histories)
+        }
         if (rng.chance(1, 6) && std::find(used.begin(), used.end(), U"xml:space") == used.end()) { ws(em, true); em.puts("xml:space="); quoted(em, rng.coin() ? "preserve" : "default"); }
         // ID / IDREF attributes (declared by declsBlock for some element types): values come from a small pool so that
         // different documents of one history share them; now and then a duplicate ID or a dangling IDREF (validity errors)
